@@ -2125,7 +2125,8 @@ func decodeJSXEntities(decoded []uint16, text string) []uint16 {
 						number = number[1:]
 						base = 16
 					}
-					if value, err := strconv.ParseInt(number, base, 32); err == nil {
+					// A character reference has no sign and denotes a Unicode code point
+					if value, err := strconv.ParseUint(number, base, 32); err == nil && value <= utf8.MaxRune {
 						c = rune(value)
 						i += length + 1
 					}
